@@ -49,6 +49,18 @@ register("C01", "props.c01", ["ValidaProofs.C01"], 2500, 60000,
          "one case = one DSL-built leaf condition (class x constructor x arguments, mostly of the expected kind, 12% of any kind) "
          "filtered over one generated document; distinct = distinct (class, callable, outcome kind) triples seen, outcome kind in "
          "{some item true, callable false, callable error, pre-processor error}; non-trivial = the result is not constant over the document")
+register("C02", "props.c02", ["ValidaProofs.C02"], 1500, 40000,
+         "60% condition trees (depth<=3 quick / <=5 thorough; value-kind mixed with key- or index-kind; null operands in every "
+         "position) filtered over a generated document, 40% object histories (2-9 constructions over shared operands, by operator "
+         "and by class call, null operands, same-operator nesting); distinct = (depth, kinds, operators, some-true) resp. "
+         "(#constructions, shared?, refused?) tuples; non-trivial = result not constant / at least two constructions")
+register("C03", "props.c03", ["ValidaProofs.C03"], 1500, 40000,
+         "one case = a path of 0-4 (thorough 0-6) parts mixing primitive parts and map/list/map-or-list parts with key/index/value "
+         "condition trees and labels, resolved on a document grown along the path (65%) or random (35%), through all entry points; "
+         "distinct = (length, concrete?, none/one/many selected, modifiers) tuples; non-trivial = the selection is non-empty")
+register("C04", "props.c04", ["ValidaProofs.C04"], 1500, 40000,
+         "as C03 plus a random datum modifier x multiplicity modifier applied in a random order; distinct = (length, concrete?, "
+         "none/one/many, datum modifier, multiplicity modifier); non-trivial = the selection is non-empty")
 
 
 def log(msg):
